@@ -46,7 +46,11 @@ type Config struct {
 	Base []int // initial (persisted) position per sequence: [pts, qts, ch0, ch1...]
 	// Untracked[seq]: the channel has no storage record at startup; it becomes tracked by its
 	// first pushed update, whose start is Base[seq] (nil = all tracked).
-	Untracked   []bool
+	Untracked []bool
+	// Dormant[seq]: the channel has a storage record but its access hash is missing while the
+	// state is loaded (loadChannels skips it); its first pushed update starts the worker from
+	// the stored pts.
+	Dormant     []bool
 	SliceLim    int // >0: at most that many pts entries per common difference (differenceSlice)
 	TooLongThr  int // >0: common difference answers differenceTooLong when vis-req > thr
 	CSliceLim   int
@@ -56,6 +60,9 @@ type Config struct {
 func (c Config) NSeq() int { return len(c.Base) }
 func (c Config) untracked(seq int) bool {
 	return seq >= 2 && seq < len(c.Untracked) && c.Untracked[seq]
+}
+func (c Config) dormant(seq int) bool {
+	return seq >= 2 && seq < len(c.Dormant) && c.Dormant[seq]
 }
 func ChanID(seq int) int64   { return int64(1000 + seq - 1) }
 func seqOfChan(id int64) int { return int(id-1000) + 1 }
@@ -86,6 +93,9 @@ const (
 	OpTimerChan   = 4 // observed: a channel gap timer fired -> channel getDifference (Seq)
 	OpStartup     = 5 // Run: startup getDifference + channel-subscribe of every tracked channel
 	OpWaitTimers  = 6 // harness only: wait for armed gap timers (replaced by the observed OpTimer*)
+	OpFailCommon  = 7 // executed form: a getDifference whose RPC failed (transient error)
+	OpFailChan    = 8 // executed form: a channel getDifference whose RPC failed (Seq)
+	OpAffected    = 9 // Manager.HandleAffected for log entry Items[0] (our own action): not modelled
 )
 
 type Op struct {
@@ -97,6 +107,9 @@ type Op struct {
 	CID        int
 	SeqNo      int
 	PtsChanged bool
+	// Fail: the first difference RPC this op causes fails with a transient error (OpTooLong,
+	// OpChanTooLong; OpWaitTimers: the next difference of scope Seq, 0 = common).
+	Fail bool
 }
 
 // visOf returns the horizon of sequence i, or the server seq for i == n (0 when absent).
@@ -157,6 +170,15 @@ func (h History) String() string {
 			sb.WriteString("startup")
 		case OpWaitTimers:
 			sb.WriteString("wait")
+		case OpFailCommon:
+			sb.WriteString("failedDiff")
+		case OpFailChan:
+			fmt.Fprintf(&sb, "failedDiff(%s)", seqName(o.Seq))
+		case OpAffected:
+			fmt.Fprintf(&sb, "affected%v", o.Items)
+		}
+		if o.Fail {
+			fmt.Fprintf(&sb, "!fail(%s)", seqName(o.Seq))
 		}
 		fmt.Fprintf(&sb, "@%v", o.Vis)
 	}
@@ -338,12 +360,23 @@ func (s *Storage) ForEachChannels(ctx context.Context, userID int64, f func(ctx 
 	return nil
 }
 
-type hasher struct{}
+// hasher knows every channel, except that the hashes of late channels are missing until the
+// manager has loaded its state (OnStart).
+type hasher struct {
+	mu      sync.Mutex
+	late    map[int64]bool
+	started bool
+}
 
-func (hasher) SetChannelAccessHash(ctx context.Context, userID, channelID, accessHash int64) error {
+func (h *hasher) SetChannelAccessHash(ctx context.Context, userID, channelID, accessHash int64) error {
 	return nil
 }
-func (hasher) GetChannelAccessHash(ctx context.Context, userID, channelID int64) (int64, bool, error) {
+func (h *hasher) GetChannelAccessHash(ctx context.Context, userID, channelID int64) (int64, bool, error) {
+	h.mu.Lock()
+	defer h.mu.Unlock()
+	if h.late[channelID] && !h.started {
+		return 0, false, nil
+	}
 	return channelID * 2, true, nil
 }
 
@@ -378,6 +411,29 @@ type Server struct {
 	log []Entry
 	mu  sync.Mutex
 	vis []int
+	// failNext[scope]: the next difference RPC of that scope (0 common, 2+i channel) fails
+	failNext map[int]bool
+}
+
+var errTransient = errors.New("transient RPC failure (injected)")
+
+// arm / disarm a fault; takeFault is called by the RPC handlers.
+func (s *Server) arm(scope int, on bool) {
+	s.mu.Lock()
+	if s.failNext == nil {
+		s.failNext = map[int]bool{}
+	}
+	s.failNext[scope] = on
+	s.mu.Unlock()
+}
+func (s *Server) takeFault(scope int) bool {
+	s.mu.Lock()
+	defer s.mu.Unlock()
+	if s.failNext[scope] {
+		s.failNext[scope] = false
+		return true
+	}
+	return false
 }
 
 func (s *Server) setVis(v []int) {
@@ -427,6 +483,14 @@ func (s *Server) UpdatesGetDifference(ctx context.Context, req *tg.UpdatesGetDif
 	ev := Ev{T: EvAPI, Seq: 0, Val: req.Pts}
 	root := !s.rec.contScope[0]
 	s.rec.contScope[0] = false
+	if s.takeFault(0) {
+		ev.Info = "error"
+		s.rec.add(ev)
+		if root {
+			s.rec.rootCalls = append(s.rec.rootCalls, s.rec.trace[len(s.rec.trace)-1])
+		}
+		return nil, errTransient
+	}
 	fin := func(info string, resp tg.UpdatesDifferenceClass) (tg.UpdatesDifferenceClass, error) {
 		ev.Info = info
 		s.rec.add(ev)
@@ -522,6 +586,14 @@ func (s *Server) UpdatesGetChannelDifference(ctx context.Context, req *tg.Update
 	ev := Ev{T: EvAPI, Seq: seq, Val: req.Pts}
 	root := !s.rec.contScope[seq]
 	s.rec.contScope[seq] = false
+	if s.takeFault(seq) {
+		ev.Info = "error"
+		s.rec.add(ev)
+		if root {
+			s.rec.rootCalls = append(s.rec.rootCalls, s.rec.trace[len(s.rec.trace)-1])
+		}
+		return nil, errTransient
+	}
 	fin := func(info string, resp tg.UpdatesChannelDifferenceClass) (tg.UpdatesChannelDifferenceClass, error) {
 		ev.Info = info
 		s.rec.add(ev)
@@ -579,6 +651,10 @@ type Run struct {
 
 	tracked    map[int]bool // channel workers that exist (sentinels are only sent to those)
 	phaseStart time.Time    // first push after startup / a timer wait: timers cannot fire before +500 ms
+
+	hash     *hasher
+	NoModel  bool         // the history contains operations the Coq model does not cover (HandleAffected)
+	Affected map[int]bool // log entries reported to the manager as our own action (never dispatched)
 
 	Executed     []Op // the ops as the model must replay them (timers as observed)
 	Interference bool // a timer fired while a push was being processed (placement ambiguous)
@@ -701,9 +777,14 @@ func Start(h History, initial []int, records []bool, vis []int) (*Run, error) {
 		}
 	}
 	rec := newRecorder()
-	r := &Run{h: h, rec: rec, done: make(chan error, 1), tracked: map[int]bool{}}
+	r := &Run{h: h, rec: rec, done: make(chan error, 1), tracked: map[int]bool{}, Affected: map[int]bool{}}
+	r.hash = &hasher{late: map[int64]bool{}}
 	for i := 2; i < h.Cfg.NSeq(); i++ {
 		r.tracked[i] = records[i]
+		if h.Cfg.dormant(i) && initial == nil {
+			r.tracked[i] = false
+			r.hash.late[ChanID(i)] = true
+		}
 	}
 	r.store = newStorage(rec, base, records)
 	r.srv = &Server{rec: rec, cfg: h.Cfg, log: h.Log}
@@ -711,7 +792,7 @@ func Start(h History, initial []int, records []bool, vis []int) (*Run, error) {
 	r.mgr = updates.New(updates.Config{
 		Handler:          handlerFunc(r.handle),
 		Storage:          r.store,
-		AccessHasher:     hasher{},
+		AccessHasher:     r.hash,
 		OnTooLong:        r.onTooLong,
 		OnChannelTooLong: r.onChannelTooLong,
 	})
@@ -719,7 +800,12 @@ func Start(h History, initial []int, records []bool, vis []int) (*Run, error) {
 	r.ctx, r.cancel = ctx, cancel
 	ready := make(chan struct{})
 	go func() {
-		r.done <- r.mgr.Run(ctx, r.srv, 123, updates.AuthOptions{OnStart: func(context.Context) { close(ready) }})
+		r.done <- r.mgr.Run(ctx, r.srv, 123, updates.AuthOptions{OnStart: func(context.Context) {
+			r.hash.mu.Lock()
+			r.hash.started = true
+			r.hash.mu.Unlock()
+			close(ready)
+		}})
 	}()
 	select {
 	case <-ready:
@@ -851,9 +937,14 @@ func (r *Run) Exec(ops []Op) {
 		roots := append([]Ev(nil), r.rec.rootCalls[from:]...)
 		r.rec.mu.Unlock()
 		for _, c := range roots {
-			if c.Seq == 0 {
+			switch {
+			case c.Seq == 0 && c.Info == "error":
+				r.Executed = append(r.Executed, Op{K: OpFailCommon, Vis: vis})
+			case c.Seq == 0:
 				r.Executed = append(r.Executed, Op{K: OpTimerCommon, Vis: vis})
-			} else {
+			case c.Info == "error":
+				r.Executed = append(r.Executed, Op{K: OpFailChan, Vis: vis, Seq: c.Seq})
+			default:
 				r.Executed = append(r.Executed, Op{K: OpTimerChan, Vis: vis, Seq: c.Seq})
 			}
 		}
@@ -918,20 +1009,36 @@ func (r *Run) Exec(ops []Op) {
 				}
 			}
 		case OpTooLong:
+			if o.Fail {
+				r.srv.arm(0, true)
+			}
 			if err := r.mgr.Handle(r.ctx, &tg.UpdatesTooLong{}); err != nil || !r.Sync() {
 				fail("recovery never became quiescent", i)
 				return
 			}
-			r.Executed = append(r.Executed, o)
+			if o.Fail {
+				r.srv.arm(0, false)
+				r.Executed = append(r.Executed, Op{K: OpFailCommon, Vis: o.Vis})
+			} else {
+				r.Executed = append(r.Executed, o)
+			}
 			if r.apiCount() != n0+1 {
 				r.Interference = true
 			}
 		case OpChanTooLong:
+			if o.Fail {
+				r.srv.arm(o.Seq, true)
+			}
 			if err := r.mgr.Handle(r.ctx, &tg.Updates{Updates: []tg.UpdateClass{&tg.UpdateChannelTooLong{ChannelID: ChanID(o.Seq)}}}); err != nil || !r.Sync() {
 				fail("channel recovery never became quiescent", i)
 				return
 			}
-			r.Executed = append(r.Executed, o)
+			if o.Fail && r.tracked[o.Seq] {
+				r.Executed = append(r.Executed, Op{K: OpFailChan, Vis: o.Vis, Seq: o.Seq})
+			} else {
+				r.Executed = append(r.Executed, o)
+			}
+			r.srv.arm(o.Seq, false)
 			want := n0 + 1
 			if !r.tracked[o.Seq] {
 				want = n0 // updateChannelTooLong for a channel without worker is ignored
@@ -939,7 +1046,23 @@ func (r *Run) Exec(ops []Op) {
 			if r.apiCount() != want {
 				r.Interference = true
 			}
+		case OpAffected:
+			if e, ok := r.h.entry(o.Items[0]); ok {
+				ch := int64(0)
+				if e.Seq >= 2 {
+					ch = ChanID(e.Seq)
+				}
+				r.NoModel = true
+				r.Affected[e.ID] = true
+				if err := r.mgr.HandleAffected(r.ctx, ch, e.Pos, e.Cnt); err != nil || !r.Sync() {
+					fail("affected result never became quiescent", i)
+					return
+				}
+			}
 		case OpWaitTimers:
+			if o.Fail {
+				r.srv.arm(o.Seq, true)
+			}
 			for k := 0; k < 6; k++ {
 				before := r.apiCount()
 				time.Sleep(560 * time.Millisecond)
@@ -950,6 +1073,9 @@ func (r *Run) Exec(ops []Op) {
 				if r.apiCount() == before {
 					break
 				}
+			}
+			if o.Fail {
+				r.srv.arm(o.Seq, false)
 			}
 			takeRoots(n0, o.Vis)
 			r.phaseStart = time.Time{}
@@ -978,6 +1104,8 @@ type Result struct {
 	FinalVis     []int
 	Interference bool
 	Stuck        string
+	NoModel      bool
+	Affected     map[int]bool
 }
 
 // RunHistory executes h on a fresh manager.
@@ -1017,6 +1145,7 @@ func runFrom(h History, initial []int, records []bool, ops []Op) Result {
 	}
 	res.Trace = r.Stop()
 	res.Executed, res.Interference, res.Stuck = r.Executed, r.Interference, r.Stuck
+	res.NoModel, res.Affected = r.NoModel, r.Affected
 	return res
 }
 
@@ -1080,8 +1209,8 @@ func CheckNoLoss(res Result, extra []Ev) []Finding {
 			}
 			continue
 		}
-		if e.Pos <= res.H.Cfg.Base[e.Seq] || e.Pos > res.FinalVis[e.Seq] || got[e.ID] {
-			continue
+		if e.Pos <= res.H.Cfg.Base[e.Seq] || e.Pos > res.FinalVis[e.Seq] || got[e.ID] || res.Affected[e.ID] {
+			continue // (an update reported as our own action through HandleAffected is never dispatched)
 		}
 		if tlCovers(all, e.Seq, e.Pos) {
 			continue // the gap containing it was reported through the too-long callback
@@ -1149,6 +1278,9 @@ func CheckInOrder(res Result, initial []int) []Finding {
 	}
 	var out []Finding
 	got := map[int]bool{}
+	for id := range res.Affected {
+		got[id] = true
+	}
 	inflight := map[int]map[int]bool{} // scope seq -> ids served by the answer being applied
 	scope := func(seq int) int {
 		if seq == 1 {
@@ -1217,6 +1349,9 @@ func CheckPrefixSafe(res Result, initial []int) ([]Finding, int) {
 	}
 	var out []Finding
 	got := map[int]bool{}
+	for id := range res.Affected {
+		got[id] = true
+	}
 	served := map[int][]int{} // seq -> targets of too-long answers whose callback has not been seen yet
 	seen := map[string]bool{}
 	for i, e := range res.Trace {
@@ -1386,6 +1521,8 @@ func CoqCase(res Result, initial []int, records []bool) string {
 		t := 1
 		if (records == nil && h.Cfg.untracked(i)) || (records != nil && i >= 2 && !records[i]) {
 			t = 0
+		} else if initial == nil && h.Cfg.dormant(i) {
+			t = 2
 		}
 		in = append(in, t)
 	}
@@ -1450,10 +1587,14 @@ func Gen(r *hx.Rand, o GenOpts) History {
 	}
 	numbered := r.Chance(1, 3)
 	wantUntracked := make([]bool, n)
+	cfg.Dormant = make([]bool, n)
 	for i := 2; i < n; i++ {
 		wantUntracked[i] = !numbered && r.Chance(1, 3)
+		cfg.Dormant[i] = !numbered && !wantUntracked[i] && r.Chance(1, 4)
 	}
+	useAffected := r.Chance(1, 4)
 	h := History{Cfg: cfg}
+	kindOf := map[int]Kind{}
 	id := 1
 	budget := r.Range(2, o.MaxEntries)
 	pos := append([]int(nil), cfg.Base...)
@@ -1493,6 +1634,7 @@ func Gen(r *hx.Rand, o GenOpts) History {
 		default:
 			e.Kind = KCMsg
 		}
+		kindOf[e.ID] = e.Kind
 		pos[seq] += e.Cnt
 		e.Pos = pos[seq]
 		perSeq[seq] = append(perSeq[seq], e)
@@ -1511,6 +1653,22 @@ func Gen(r *hx.Rand, o GenOpts) History {
 	cid := 0
 	var heldBack []Op // numbered containers delivered late (reordering)
 	container := func(items []int) {
+		// our own actions: the pts-bearing non-message update comes back as the result of an RPC
+		// (Manager.HandleAffected), not as a pushed update
+		if useAffected {
+			var rest []int
+			for _, it := range items {
+				if k := kindOf[it]; (k == KOther || k == KCOther) && r.Chance(1, 2) {
+					h.Ops = append(h.Ops, Op{K: OpAffected, Vis: cp(), Items: []int{it}})
+				} else {
+					rest = append(rest, it)
+				}
+			}
+			items = rest
+			if len(items) == 0 {
+				return
+			}
+		}
 		cid++
 		op := Op{K: OpPush, Items: items, CID: cid, PtsChanged: r.Chance(1, 12)}
 		if numbered {
@@ -1638,6 +1796,24 @@ func Gen(r *hx.Rand, o GenOpts) History {
 			}
 		}
 	}
+	// a dormant channel that never receives a pushed update never gets a worker: treat it as tracked
+	for seq := 2; seq < n; seq++ {
+		if h.Cfg.dormant(seq) {
+			pushed := false
+			for _, op := range h.Ops {
+				if op.K == OpPush {
+					for _, it := range op.Items {
+						if e, ok := h.entry(it); ok && e.Seq == seq {
+							pushed = true
+						}
+					}
+				}
+			}
+			if !pushed {
+				h.Cfg.Dormant[seq] = false
+			}
+		}
+	}
 	variant := 0
 	switch x := r.Intn(20); {
 	case x < 6:
@@ -1658,7 +1834,23 @@ func Gen(r *hx.Rand, o GenOpts) History {
 			after[s] = perSeq[s][k-1].Pos
 		}
 	}
-	h.Ops = append(h.Ops, FinalOpsVariant(h.Cfg, vis, after, variant, numbered, &cid)...)
+	fin := FinalOpsVariant(h.Cfg, vis, after, variant, numbered, &cid)
+	// fault sequences: one transient failure of a difference RPC (timer-triggered or on a
+	// recovery signal) before the final recovery
+	if r.Chance(1, 4) {
+		scope := 0
+		if nch > 0 && r.Chance(2, 3) {
+			scope = 2 + r.Intn(nch)
+		}
+		if r.Chance(2, 3) {
+			fin[0].Fail, fin[0].Seq = true, scope // the timers of the push phase
+		} else if scope == 0 {
+			h.Ops = append(h.Ops, Op{K: OpTooLong, Vis: cp(), Fail: true})
+		} else {
+			h.Ops = append(h.Ops, Op{K: OpChanTooLong, Vis: cp(), Seq: scope, Fail: true})
+		}
+	}
+	h.Ops = append(h.Ops, fin...)
 	return h
 }
 
